@@ -4,6 +4,7 @@ package main
 
 import (
 	"fmt"
+	"os"
 	"strings"
 	"go/token"
 	"go/types"
@@ -300,6 +301,16 @@ func (x *Exec) enterBlock(st *State, b, from *ssa.BasicBlock) bool {
 		return false
 	}
 	// loop entry
+	if os.Getenv("GVERIF_DEBUG") != "" {
+		pos := x.L.fset.Position(b.Instrs[0].Pos())
+		for _, in := range b.Instrs {
+			if in.Pos().IsValid() {
+				pos = x.L.fset.Position(in.Pos())
+				break
+			}
+		}
+		fmt.Fprintf(os.Stderr, "loop %s %s at %s:%d\n", x.curKey, lkey, shortFile(pos.Filename), pos.Line)
+	}
 	lc := &loopCtx{key: lkey}
 	lc.allocAt = x.heap(st, "$alloc", "Int")
 	if ls != nil {
@@ -318,6 +329,7 @@ func (x *Exec) enterBlock(st *State, b, from *ssa.BasicBlock) bool {
 	}
 	sort.Slice(blocks, func(i, j int) bool { return blocks[i].Index < blocks[j].Index })
 	x.collectWrites(st, f.fn, blocks, f.env, ws, 0, map[*ssa.Function]bool{})
+	ws.resolveCellMaps(st)
 	if ws.all {
 		x.gap(fmt.Sprintf("loop %s: everything is havoced at the loop head (%s)", lkey, ws.why))
 		x.havocAll(st)
@@ -345,6 +357,19 @@ func (x *Exec) enterBlock(st *State, b, from *ssa.BasicBlock) bool {
 				fv := x.freshConst(st, "hv", elemSort)
 				if et, ok := x.heapElem[n]; ok && !strings.HasPrefix(n, "E$") && !strings.HasPrefix(n, "M") {
 					x.assumeWF(st, fv, et)
+				}
+				if et, ok := x.heapElem[n]; ok && strings.HasPrefix(n, "MV$") {
+					// typing of the havoced map object: every value is a well-formed value of its type
+					cell := fmt.Sprintf("(select %s k)", fv)
+					if wf := x.wfTerm(st, cell, et, 2); wf != "true" {
+						st.assume(fmt.Sprintf("(forall ((k %s)) (! %s :pattern (%s)))", x.heapKey[n], wf, cell))
+					}
+				}
+				if et, ok := x.heapElem[n]; ok && strings.HasPrefix(n, "E$") {
+					cell := fmt.Sprintf("(select %s i)", fv)
+					if wf := x.wfTerm(st, cell, et, 2); wf != "true" {
+						st.assume(fmt.Sprintf("(forall ((i Int)) (! %s :pattern (%s)))", wf, cell))
+					}
 				}
 				cur = sto(cur, ref, fv)
 			}
@@ -574,6 +599,27 @@ type writeSet struct {
 	fresh map[string]bool     // heap has writes to fresh objects
 	inFresh bool              // analysing a store whose target is a fresh object
 	why     string
+	cellMaps []cellMapWrite   // map updates through a variable (cell); resolved after the analysis
+}
+
+type cellMapWrite struct {
+	cell           int
+	dn, ds, vn, vs string
+}
+
+// resolveCellMaps: a map reached through a variable that the loop never assigns is one fixed
+// map object (pointwise havoc); otherwise the whole map heap is written.
+func (ws *writeSet) resolveCellMaps(st *State) {
+	for _, cm := range ws.cellMaps {
+		if v, ok := st.cells[cm.cell]; ok && !ws.cells[cm.cell] && v.T != "" {
+			ws.wPoint(cm.dn, cm.ds, v.T)
+			ws.wPoint(cm.vn, cm.vs, v.T)
+		} else {
+			ws.w(cm.dn, cm.ds)
+			ws.w(cm.vn, cm.vs)
+		}
+	}
+	ws.cellMaps = nil
 }
 
 func newWriteSet() *writeSet {
@@ -790,8 +836,23 @@ func (x *Exec) collectWrites(st *State, fn *ssa.Function, blocks []*ssa.BasicBlo
 				x.staticAddrWrites(t.Addr, ws)
 			case *ssa.MapUpdate:
 				dn, ds, vn, vs := x.mapHeaps(t.Map.Type().Underlying().(*types.Map))
+				if env != nil {
+					// the map is a value fixed before the loop, or the content of a variable (cell)
+					// that the loop does not assign: only that map object changes
+					if mv, ok := env[t.Map]; ok && mv.T != "" {
+						ws.wPoint(dn, ds, mv.T)
+						ws.wPoint(vn, vs, mv.T)
+						continue
+					}
+					if ld, ok := t.Map.(*ssa.UnOp); ok && ld.Op == token.MUL {
+						if cv, ok := env[ld.X]; ok && cv.Loc != nil && cv.Loc.Kind == LCell && cv.Loc.Cell > 0 {
+							ws.cellMaps = append(ws.cellMaps, cellMapWrite{cv.Loc.Cell, dn, ds, vn, vs})
+							continue
+						}
+					}
+				}
 				ws.w(dn, ds)
-					ws.w(vn, vs)
+				ws.w(vn, vs)
 			case *ssa.Next:
 				if env != nil {
 					if v, ok := env[t.Iter]; ok && v.It != nil {
@@ -872,6 +933,27 @@ func (x *Exec) callWrites(st *State, caller *ssa.Function, c *ssa.CallCommon, en
 				rule = x.ruleFor(callee)
 			}
 		}
+	}
+	if callee != nil && (callee.String() == "encoding/json.Unmarshal" || callee.String() == "sort.Sort") {
+		// library models (see libraryModel): the pointee struct's fields / the slice's elements
+		ws.w("$alloc", "Int")
+		if len(c.Args) > 0 {
+			arg := c.Args[len(c.Args)-1]
+			if mi, ok := arg.(*ssa.MakeInterface); ok {
+				if pt, ok := mi.X.Type().Underlying().(*types.Pointer); ok {
+					x.addTypeWrites(pt.Elem(), ws)
+					return
+				}
+				if sl, ok := mi.X.Type().Underlying().(*types.Slice); ok {
+					hn, hs := x.elemHeap(sl.Elem())
+					ws.w(hn, hs)
+					return
+				}
+			}
+		}
+		ws.all = true
+		ws.why = "library model of " + callee.String() + " not applicable"
+		return
 	}
 	if con != nil && !con.Inline {
 		if con.NoEffect {
